@@ -5,7 +5,7 @@ classes below.  A value always has a *definite Python kind* on a path (paths for
 kind is ambiguous), which keeps the encoding close to Python's dynamic semantics:
 
   int   -> mathematical integer (exact for Python)          VInt
-  bool  -> VBool        None -> VNone        float -> VFloat (IEEE double, z3 FP)
+  bool  -> VBool        None -> VNone        float -> VFloat (class + real value)
   str   -> VChar (length 1, code point), VCStr (concrete), VSeq (z3 Seq Int, built strings),
            VArr (immutable symbolic source text: array of code points + length),
            VSlice (substring of a VArr given by clipped bounds), VOpaque (content irrelevant)
@@ -50,10 +50,26 @@ class VNone(Val):
 
 
 class VFloat(Val):
-    __slots__ = ("e",)
+    """Python float, abstracted as (cls, r): cls 0 finite / 1 NaN / 2 +inf / 3 -inf, and for finite values an
+    arbitrary *real* r.  Every IEEE double is a real, so what is proved for all reals holds for all doubles;
+    sound for code that only compares, tests and truncates floats (no float arithmetic is modelled)."""
+    __slots__ = ("r", "cls")
 
-    def __init__(self, e):
-        self.e = e
+    def __init__(self, r, cls=0):
+        self.r = r
+        self.cls = z3.IntVal(cls) if isinstance(cls, int) else cls
+
+    @property
+    def finite(self):
+        return self.cls == 0
+
+    @property
+    def nan(self):
+        return self.cls == 1
+
+    @property
+    def inf(self):
+        return z3.Or(self.cls == 2, self.cls == 3)
 
 
 class VStr(Val):
